@@ -10,6 +10,7 @@ These properties quantify over EVERY market type under one Broker.  Each domain 
     aave       Aave.tla via MC_Aave              MC_Aave_quick/bfs3 + simulation, DEV cfgs    harness/aave_run.py (AaveV3Market + Broker)
     squeeth    Squeeth.tla via MC_Squeeth        MC_Squeeth_cross/cross2/crosslive, DEV cfgs  harness/props/c14.py (SqueethMarket + UniLpMarket + Broker / Actuator)
     deribit    Deribit.tla via MC_Deribit        MC_Deribit_quick/thorough/sim/c16_g*, DEV    harness/deribit_cross.py (DeribitOptionMarket, ETH-quoted, in a USDC account)
+    account    Account.tla (composition)         Trace_Account (trace validation)             harness/account_cross.py (several real markets under one Broker / Actuator; C01 only)
     gmx v1/v2  GmxV1.tla / GmxV2.tla             MC_GmxV*_cross/cross_deep/cross_sim, DEV     harness/gmx_cross.py (GmxMarket / GmxV2Market + Broker)
 
 Every leg replays TLC behaviours into the real classes under a real Broker and decides the OWNER's clauses on the real
@@ -27,7 +28,7 @@ import time
 
 from .common import Check
 
-LEGS = ("wallet", "uniswap", "aave", "squeeth", "deribit", "gmx")
+LEGS = ("wallet", "uniswap", "aave", "squeeth", "deribit", "gmx", "account")
 
 RULE = {
     "C01": "a case = one TLC behaviour of a market specification replayed into the real market under a real Broker; after every step "
@@ -46,6 +47,9 @@ def _leg(name):
     if name == "wallet":
         from . import wallet_cross
         return wallet_cross.run_cross
+    if name == "account":
+        from . import account_cross
+        return account_cross.run_cross
     if name == "uniswap":
         from . import uni_run
         return uni_run.run_cross
@@ -113,6 +117,10 @@ def replay(chk: Check, path: str, owner: str) -> int:
         from .props import c14
         c14.replay_cross(chk, r)
         return chk.finish("replay of one recorded Squeeth path")
+    if kind == "account_case":
+        from . import account_cross
+        account_cross.replay_cross(chk, r)
+        return chk.finish("replay of one composite account run")
     if kind == "wallet_path":
         from . import wallet_cross
         wallet_cross.replay_cross(chk, r)
